@@ -28,10 +28,28 @@ ClampDevs(e) ==
          IN (IF mx /\ ~ClampOK(e.g.vx, e.g.w, e.lim[1]) THEN {Dev("C20.clamp", "x", [op |-> e.op, g |-> e.g, lim |-> e.lim])} ELSE {})
             \cup (IF my /\ ~ClampOK(e.g.vy, e.g.h, e.lim[2]) THEN {Dev("C20.clamp", "y", [op |-> e.op, g |-> e.g, lim |-> e.lim])} ELSE {})
 
+\* a child that is itself a BoxLayout (k.nest = <<[horiz, kids]>>): the same rules inside the rectangle it was given;
+\* its leaves' view coordinates are relative to that rectangle, what they paint is absolute
+NestedDevs(e, i) ==
+    LET k == e.kids[i] IN
+    IF Len(k.nest) = 0 \/ ~NonEmpty(k) THEN {}
+    ELSE LET n == k.nest[1] IN
+         {Dev("C20.layout", "nested_" \o p, [op |-> e.op, child |-> i, horiz |-> n.horiz, W |-> k.w, H |-> k.h, kids |-> n.kids])
+            : p \in LayoutWrong(n.horiz, k.w, k.h, n.kids)}
+         \cup UNION { LET g == n.kids[j] IN
+                      IF ~NonEmpty(g) THEN (IF g.drawn[5] = 0 THEN {} ELSE {Dev("C20.layout", "nested_empty_child_drew", <<i, j, g.drawn>>)})
+                      ELSE IF g.x < 0 \/ g.y < 0 \/ g.x + g.w > k.w \/ g.y + g.h > k.h THEN {}      \* reported by LayoutWrong
+                      ELSE (IF g.drawn[5] = g.w * g.h /\ g.drawn[1] = k.x + g.x /\ g.drawn[2] = k.y + g.y
+                               /\ g.drawn[3] = k.x + g.x + g.w - 1 /\ g.drawn[4] = k.y + g.y + g.h - 1 THEN {}
+                            ELSE {Dev("C20.layout", "nested_child_drawing_not_its_rectangle", <<i, j, k.x, k.y, g.x, g.y, g.w, g.h, g.drawn>>)})
+                    : j \in 1..Len(n.kids) }
+
 LayoutDevs(e) ==
     {Dev("C20.layout", p, [op |-> e.op, horiz |-> e.horiz, W |-> e.W, H |-> e.H, kids |-> e.kids]) : p \in LayoutWrong(e.horiz, e.W, e.H, e.kids)}
+    \cup UNION { NestedDevs(e, i) : i \in 1..Len(e.kids) }
     \cup UNION { LET k == e.kids[i] IN
-                 IF ~NonEmpty(k) THEN (IF k.drawn[5] = 0 THEN {} ELSE {Dev("C20.layout", "empty_child_drew", <<i, k.drawn>>)})
+                 IF Len(k.nest) = 1 THEN {}        \* a nested layout paints through its leaves (NestedDevs)
+                 ELSE IF ~NonEmpty(k) THEN (IF k.drawn[5] = 0 THEN {} ELSE {Dev("C20.layout", "empty_child_drew", <<i, k.drawn>>)})
                  ELSE (IF k.drawn[5] = k.w * k.h /\ k.drawn[1] = k.x /\ k.drawn[2] = k.y
                           /\ k.drawn[3] = k.x + k.w - 1 /\ k.drawn[4] = k.y + k.h - 1 THEN {}
                        ELSE {Dev("C20.layout", "child_drawing_not_its_rectangle", <<i, k.x, k.y, k.w, k.h, k.drawn>>)})
